@@ -51,10 +51,10 @@ pub fn runs_for(tier: &str) -> u64 {
 }
 
 fn tree_of(lib: &Library) -> Tree {
-    let mut files: Vec<FileSpec> = lib.notes.iter().map(|(k, t)| FileSpec { rel: format!("{}.md", k), text: Some(t.clone()), bytes: None, mode: 0o644 }).collect();
+    let mut files: Vec<FileSpec> = lib.notes.iter().map(|(k, t)| FileSpec { rel: format!("{}.md", k), text: Some(t.clone()), bytes: None, mode: 0o644, symlink: None }).collect();
     let has_config = !lib.refs_ext.is_empty();
     if has_config {
-        files.push(FileSpec { rel: ".iwe/config.toml".into(), text: Some(format!("prompt_key_prefix = \"prompt\"\n\n[markdown]\nrefs_extension = \"{}\"\n\n[library]\npath = \"\"\n\n[models]\n\n[actions]\n", lib.refs_ext)), bytes: None, mode: 0o644 });
+        files.push(FileSpec { rel: ".iwe/config.toml".into(), text: Some(format!("prompt_key_prefix = \"prompt\"\n\n[markdown]\nrefs_extension = \"{}\"\n\n[library]\npath = \"\"\n\n[models]\n\n[actions]\n", lib.refs_ext)), bytes: None, mode: 0o644, symlink: None });
     }
     Tree { files, empty_dirs: vec![], library: String::new(), refs_ext: lib.refs_ext.clone(), has_config }
 }
